@@ -147,14 +147,56 @@ def exc_name(e: BaseException) -> str:
     return "!other:" + type(e).__name__
 
 
+class _OpHang(BaseException):
+    """raised by the operation watchdog inside the call under test"""
+
+
+OP_WATCHDOG_S = float(os.environ.get("PYODA_OP_WATCHDOG_S", "300"))
+_wd = {"in": False, "n": 0, "ok": None}
+
+
+def _alarm(_sig, _frm):
+    if _wd["in"]:
+        raise _OpHang()
+
+
+def _watchdog_usable() -> bool:
+    import signal
+    import threading
+    if _wd["ok"] is None:
+        ok = threading.current_thread() is threading.main_thread()
+        if ok:
+            try:
+                ok = signal.getsignal(signal.SIGALRM) in (signal.SIG_DFL, signal.SIG_IGN, None, _alarm)
+                if ok:
+                    signal.signal(signal.SIGALRM, _alarm)
+            except (ValueError, OSError):
+                ok = False
+        _wd["ok"] = ok
+    return _wd["ok"]
+
+
 def guard(fn, *a, **k) -> str:
-    """Run fn; its return value must already be a canonical string; exceptions are mapped."""
+    """Run fn; its return value must already be a canonical string; exceptions are mapped. The interval timer is
+    re-armed every 16 operations: real code that stops returning (16 operations not finished within OP_WATCHDOG_S
+    seconds) is reported as `!hang` - a disagreement with any model reply - instead of hanging the whole check. Only in
+    the main thread of a process and only when nobody else owns SIGALRM (C20 runs its own promptness timer)."""
+    import signal
+    if _watchdog_usable() and signal.getsignal(signal.SIGALRM) is _alarm:
+        _wd["n"] += 1
+        if _wd["n"] % 16 == 1:
+            signal.setitimer(signal.ITIMER_REAL, OP_WATCHDOG_S)
+        _wd["in"] = True
     try:
         return fn(*a, **k)
     except RecursionError:
         raise
+    except _OpHang:
+        return "!hang"
     except Exception as e:  # noqa: BLE001
         return exc_name(e)
+    finally:
+        _wd["in"] = False
 
 
 def ints(*xs) -> str:
@@ -582,13 +624,23 @@ class Ctx:
         return dis
 
     def _run_oracle(self, oracle, toks):
+        import signal
+        armed = _watchdog_usable() and signal.getsignal(signal.SIGALRM) is _alarm
+        if armed:
+            signal.setitimer(signal.ITIMER_REAL, OP_WATCHDOG_S)
+            _wd["in"] = True
         try:
             return oracle(toks)
         except RecursionError:
             raise
+        except _OpHang:
+            return {"key": "operation-does-not-return", "what": f"the property oracle for {' '.join(toks)[:200]} did not finish within "
+                    f"{OP_WATCHDOG_S:.0f} s: a call into the code under test does not return"}
         except Exception as e:  # noqa: BLE001
             return {"key": "oracle-exception", "what": f"oracle raised {type(e).__name__}: {e}",
                     "trace": traceback.format_exc()[-800:]}
+        finally:
+            _wd["in"] = False
 
     # ---- (S) -------------------------------------------------------------------------
     def check_cases(self, name: str, cases, fn, exhaustive: bool = False) -> None:
@@ -597,12 +649,21 @@ class Ctx:
         for c in cases:
             st["cases"] += 1
             self.evaluations += 1
+            import signal
+            armed = _watchdog_usable() and signal.getsignal(signal.SIGALRM) is _alarm
+            if armed:
+                signal.setitimer(signal.ITIMER_REAL, OP_WATCHDOG_S * 2)
+                _wd["in"] = True
             try:
                 f = fn(c)
             except RecursionError:
                 raise
+            except _OpHang:
+                f = {"key": "operation-does-not-return", "what": f"oracle {name}: case {str(c)[:200]} did not finish within {OP_WATCHDOG_S * 2:.0f} s"}
             except Exception as e:  # noqa: BLE001
                 f = {"key": "oracle-exception", "what": f"{type(e).__name__}: {e}", "trace": traceback.format_exc()[-800:]}
+            finally:
+                _wd["in"] = False
             if f:
                 st["failures"] += 1
                 self.add_failure(f, op=repr(c) if not isinstance(c, str) else c, source=f"oracle:{name}")
